@@ -588,6 +588,13 @@ pub fn check(run: &Run) -> Value {
         }
     }
     let merge = crate::c07b::merge_points(run, &mut total);
+    let (hist_problems, hist_n) = crate::history::run_all();
+    total.cases += hist_n;
+    total.executions += hist_n * 2;
+    for (k, w, case) in hist_problems {
+        total.violation(k, w, || case);
+    }
+    println!("C07 call histories on one DOM: {} ordered pairs of root selections x codecs", hist_n);
     total.report(run);
     println!(
         "C07 sweep: cases={} serializations={} processes={} cases-produced-in->=2-processes={} (max {} processes per case) merge_points={}",
@@ -601,14 +608,18 @@ pub fn check(run: &Run) -> Value {
         "evaluations": total.executions,
         "distinct_nontrivial": total.nontrivial,
         "worker_processes": shards,
+        "call_history_pairs": hist_n,
         "cases_serialized_in_two_or_more_processes": cross_checked,
         "samples": total.samples.iter().map(|s| serde_json::from_str::<Value>(s).unwrap()).collect::<Vec<_>>(),
         "exhaustive": true,
-        "rule": "every plan of the topology sweep (forests <= N nodes x classes x root selections x Ref/Content/SharedString placements) and of the property-menu sweep (1-3 instances x 2..8 properties, heterogeneous columns) is realised in every variant of {property insertion permutations, nested / incremental / re-parented construction, fixed Ref pools in 3 rotations and random Refs, rebuilt with fresh hash maps} and serialized to binary (3 compressions) and XML; all variants must be byte-identical, also across independently started worker processes; save(load(save(load(s)))) must equal save(load(s))",
+        "rule": "every plan of the topology sweep (forests <= N nodes x classes x root selections x Ref/Content/SharedString placements) and of the property-menu sweep (1-3 instances x 2..8 properties, heterogeneous columns) is realised in every variant of {property insertion permutations, nested / incremental / re-parented construction, fixed Ref pools in 3 rotations and random Refs, rebuilt with fresh hash maps} and serialized to binary (3 compressions) and XML; all variants must be byte-identical, also across independently started worker processes; save(load(save(load(s)))) must equal save(load(s)); on one DOM (small rings, 300 and 9000 siblings) every ordered pair of root selections written on one thread: the second output must be what a fresh thread writes",
     })
 }
 
 pub fn replay(case: &Value) -> Vec<(String, String)> {
+    if case.get("call_history").is_some() {
+        return crate::history::run_all().0.into_iter().map(|(k, w, _)| (k, w)).collect();
+    }
     if case.get("a").is_some() && case.get("b").is_some() {
         return crate::c07b::replay(case);
     }
